@@ -91,14 +91,35 @@ Proof. split; [vm_compute; reflexivity|]. split; [vm_compute; reflexivity|]. app
 Print Assumptions C11_fixed_scalar_shared_chain.
 
 (* ---- the full statement, as strongly as it is true: for EVERY well-formed circuit whose delays are implemented at all (every
-        delayed edge's source has a delay above the step size — shorter ones are deliberately neglected) and in which
-        round(rate, 12) merges no two different rates, the compiled system is the explicitly written per-edge chain system:
-        any mixture of (d, s) pairs, plain delays (with or without dde_approx), undelayed siblings, shared sources/targets,
-        both vectorize settings.  No finding-guard is left. ---- *)
-Theorem C11_full : forall c n, gwf c = true -> g_above_step c = true -> g_rates_exact c = true ->
+        delayed edge's source has a delay above the step size — shorter ones are deliberately neglected), in which
+        round(rate, 12) merges no two different rates and the discrete delays of the spread-less edges are the specified
+        round(d/dt) steps, the compiled system is the explicitly written per-edge system (a gamma chain behind an edge with
+        a spread or under dde_approx, a discrete delay behind a plain-delay edge): any mixture of (d, s) pairs, plain delays,
+        undelayed siblings, shared sources/targets, both vectorize settings. ---- *)
+Theorem C11_full : forall c n, gwf c = true -> g_above_step c = true -> g_rates_exact c = true -> g_steps_exact c = true ->
   gimpl_run c n = Ok (gspec_run c n).
 Proof. exact gfull_scope. Qed.
 Print Assumptions C11_full.
+(* g_steps_exact holds outside the open finding D111 and inside the property's scope *)
+Theorem C11_steps_exact : forall c, g_no_plain_in_spread_group c = true -> g_plain_ge2 c = true -> g_steps_exact c = true.
+Proof. exact steps_exact_of_guards. Qed.
+Print Assumptions C11_steps_exact.
+(* D111 (open; replayed on the real code: corpus/C11): a plain discrete delay of 4 steps on an edge whose source variable also has an
+   edge with a spread is silently DROPPED (the spread-less edge gets the kernel of order 0); vectorize=True: already when another unit
+   of the merged source vector has the spread edge — the non-vectorized compilation of that circuit is right *)
+Definition w_mixed := mkGC dt8 true 0 [S1; mkNode true 0 (mkq 2 1) (mkq 1 1); T0; T0]
+  [mkG 0 2 (mkq 1 1) (Some (mkq 1 2, None)); mkG 1 3 (mkq 1 1) (Some (mkq 2 1, Some (mkq 1 1)))].
+Theorem C11_refuted_mixed_kinds : gwf w_mixed = true /\ g_no_plain_in_spread_group w_mixed = false /\
+  impl_steps w_mixed = [0; 0]%nat /\ spec_steps w_mixed = [4; 0]%nat /\
+  gimpl_run w_mixed 8 <> Ok (gspec_run w_mixed 8) /\
+  gimpl_run (mkGC dt8 false 0 (gnodes w_mixed) (gedges w_mixed)) 8 = Ok (gspec_run (mkGC dt8 false 0 (gnodes w_mixed) (gedges w_mixed)) 8).
+Proof.
+  split; [vm_compute; reflexivity|]. split; [vm_compute; reflexivity|]. split; [vm_compute; reflexivity|].
+  split; [vm_compute; reflexivity|]. split.
+  - apply res_eqb_false_neq. vm_compute. reflexivity.
+  - apply C11_full; vm_compute; reflexivity.
+Qed.
+Print Assumptions C11_refuted_mixed_kinds.
 (* the unrestricted statement C11_full_statement fails only on that scope boundary: a delay below the step size is ignored *)
 Definition w_short := mkGC dt8 false 0 [S1; T0] [mkG 0 1 (mkq 1 1) (Some (mkq 1 16, Some (mkq 1 16)))].
 Theorem C11_full_refuted : ~ C11_full_statement.
